@@ -36,6 +36,14 @@ def run(ctx):
     ids = vlib.dedupe(r2.printed_json("ids"))
     if len(faults) < 20 or len(ids) < 50:
         raise vlib.Infra("generator produced %d fault scenarios, %d interleavings" % (len(faults), len(ids)))
+    # the model's theorems are independent of the number of records (flushes may happen at any
+    # point): scale the no-fault scenario up to sizes at which the server flushes mid-upload
+    sizes = list(range(3, 81)) if q else list(range(3, 161))
+    for n in sizes:
+        for nf in ((1,) if q else (1, 2)):
+            faults.append({"tag": "fault", "files": nf, "recs": n, "fault": {"phase": "none", "file": 0, "rec": 0}, "ok": True,
+                           "visible": [[f, r] for f in range(1, nf + 1) for r in range(1, n + 1)], "stored": list(range(1, nf + 1)),
+                           "failedfile": 0, "scaled": True})
     ctx.add_samples([faults[len(faults) // 2], ids[len(ids) // 2]], 2)
     ctx.replay("upload", faults, "single-fault scenarios against the /upload handler", timeout=3000)
     evp = os.path.join(ctx.work, "id-events.ndjson")
